@@ -285,6 +285,7 @@ def run(ctx):
     # writing into its own x0 / bound arrays after construction (the result must describe the problem as it was constructed)
     base += [job(D, g, m, "sphere_in", seeds[0], 40 if m == "det" else 60) for D in (2, 3) for g in ("mixunb", "mixed", "unb") for m in ("det", "decl")]
     base += [dict(job(D, g, m, "sphere_in", seeds[0], 40 if m == "det" else 60), scribble_inputs=True) for D in (1, 2) for g in ("lin", "log", "unb") for m in ("det", "spec")]
+    base += [dict(job(D, "lin", m, "sphere_in", seeds[0], 40 if m == "det" else 60), reseed_after_construct=rs_) for D in (1, 2) for m in ("det", "decl") for rs_ in (5, 0)]
     st = explore(base, ["ans", "noise"], 0, sink, name="runs/b0")
     nz = [job(D, "lin", m, "sphere_in", seeds[0], 62, nfs=nfs) for D in ((1,) if q else (1, 2)) for m in ("auto", "decl", "spec") for nfs in (1, 3)]
     st = explore(nz, ["noise"], 1, sink, stats=st, name="noisy/noise-b1", pos_ok=lambda k, p, r: (p % 2 == 0 and p >= 28) if q else True,
